@@ -37,6 +37,17 @@ CHECKS = {
    design="4 C16",
    note=COMMON_NOTE + "Domain: address + size within 32 bits. The intelhex writer's extended-address arithmetic is not proved; it is checked per file by the verifier's strict reader.",
    technique="Lean 4 proof (byte-level layout lemmas, omega) + model/implementation correspondence"),
+ "C20": dict(
+   text="Lean theorems C20_order_partial (for versions with the same number of numeric fields and no explicit '.0' pre-release number, semver precedence = zero-padded "
+        "list order; unbounded field values; induction on the field lists), C20_full_fails_mixed / C20_full_fails_zero (kernel-checked counter-examples of the full "
+        "statement: findings F10a, F10b), C20_rejects (any part that is neither numeric nor alpha/beta/rc makes the whole string a ValueError), C20_seq_strict "
+        "(omega: (M<<24)+(m<<16)+(p<<8)+t strictly follows lexicographic order when m,p,t < 256), C20_seq_needs_range. Tie: every version of the bounded grammar is "
+        "parsed by the real SuitComponentVersion and the model, all ordered pairs compared by the Lean reference on the implementation's lists; VERSION files through "
+        "append_default_version_values.",
+   design="4 C20",
+   note=COMMON_NOTE + "ASCII strings; parse(render v) = conv v tied bounded-exhaustively, not by a theorem; known findings F10a/F10b in known_findings.json are the "
+        "complement of the partial theorem's hypotheses.",
+   technique="Lean 4 proof (induction, omega, decide witnesses) + bounded-exhaustive model/implementation correspondence"),
 }
 
 NA_REASON = "check not yet built in this revision (work in progress; DESIGN.md section 4 describes the planned model and theorems)"
